@@ -20,7 +20,8 @@ UNITS = {
     "Mos": dict(target=("prim", "Mos", {}), ports=[("d", 1), ("g", 1), ("s", 1), ("b", 1)]),
     "Npn": dict(target=("prim", "Bipolar", {}), ports=[("c", 1), ("b", 1), ("e", 1)]),
     "Ext3": dict(target=("ext", "E3", {"k": 1}), ports=[("a", 1), ("b", 1), ("c", 1)]),
-    "ExtNames": dict(target=("ext", "EN", {"k": 2}), ports=[("i", 1), ("units", 1), ("inner", 1), ("units_1", 1)]),  # ports named like the generators' own attributes and array elements
+    "ExtNames": dict(target=("ext", "EN", {"k": 2}), ports=[("i", 1), ("units", 1), ("inner", 1), ("x", 1)]),  # ports named like the generators' own attributes
+    "ExtElems": dict(target=("ext", "EE", {"k": 3}), ports=[("a", 1), ("units_0", 1), ("units_1", 1)]),  # ... and like the elements of the generated array
     "ModBus": dict(target=("mod", "UnitM"), ports=[("a", 1), ("b", 1), ("w", 2)]),
     "ModBundle": dict(target=("mod", "UnitB"), ports=[("a", 1), ("b", 1)], bports=[("t", "B1")]),
     # bundle-valued ports named like the generators' own attributes
@@ -29,7 +30,7 @@ UNITS = {
 
 
 def unit_modules():
-    exts = {"E3": ext_leaf([("a", 1), ("b", 1), ("c", 1)]), "EN": ext_leaf([("i", 1), ("units", 1), ("inner", 1), ("units_1", 1)]), "P1": ext_leaf([("a", 1)]), "P2": ext_leaf([("a", 2)])}
+    exts = {"E3": ext_leaf([("a", 1), ("b", 1), ("c", 1)]), "EN": ext_leaf([("i", 1), ("units", 1), ("inner", 1), ("x", 1)]), "EE": ext_leaf([("a", 1), ("units_0", 1), ("units_1", 1)]), "P1": ext_leaf([("a", 1)]), "P2": ext_leaf([("a", 2)])}
     um = {"name": "UnitM", "style": "class", "decls": [
         ("port", "a", 1, "none"), ("port", "b", 1, "none"), ("port", "w", 2, "none"),
         ("inst", "r", ("prim", "R", {"r": 5}), [("p", sig("a")), ("n", sig("b"))]),
@@ -149,7 +150,7 @@ def judge(pkg, exp, u, n, gen):
     import re as _re
 
     tops = sorted({p_[0] for p_ in odev})
-    m_ = [_re.fullmatch(r"(.+?)_(\d+)", t) for t in tops]
+    m_ = [_re.fullmatch(r"(.+?)_(\d+)_*", t) for t in tops]  # element k of the array, possibly with a collision-avoiding suffix
     ren_i = {}
     if n > 1 and gen != "wrapper" and all(m_) and len({x.group(1) for x in m_}) == 1:
         ren_i = {f"uu_{x.group(2)}": x.group(0) for x in m_}
